@@ -19,7 +19,9 @@ type specEnzyme struct {
 }
 
 func (e specEnzyme) real() clone.Enzyme {
-	return clone.Enzyme{Name: "custom", RegexpFor: regexp.MustCompile(e.Site), RegexpRev: regexp.MustCompile(e.Rsite),
+	// the name is a label: a custom enzyme may carry any, also a built-in's
+	name := []string{"custom", "BsaI", "BbsI", "BtgZI", ""}[(len(e.Site)+e.Ovh)%5]
+	return clone.Enzyme{Name: name, RegexpFor: regexp.MustCompile(e.Site), RegexpRev: regexp.MustCompile(e.Rsite),
 		Skip: e.Skip, OverhangLen: e.Ovh, RecognitionSite: e.Site}
 }
 
